@@ -668,6 +668,41 @@ class StubHeatmapEncoder(nn.Module):
         return torch.einsum("bie,bje->bij", self.mix(h), h), h
 
 
+# --------------------------------------------------------------------------- mixture-of-experts gates
+# rl4co initialises the gate weights of every MoE layer with zeros: in a freshly built model every token goes to experts
+# (0, 1) with gates 0.5 / 0.5 and the dispatcher's re-ordering logic is never exercised.  Harness policies get random gate
+# weights (what training produces), so tokens of one batch go to different experts with different gate values.  The expert
+# choice is a discrete top-k: where the k-th and (k+1)-th gate logits of some token coincide within float32 rounding, the
+# choice may legitimately differ between two batch layouts of the same computation - a forward pre-hook records the
+# smallest such margin since the last `moe_watch`, and comparisons across layouts are don't-care below MOE_THR.
+MOE_MARGIN = {"min": float("inf")}
+MOE_THR = 1e-3
+
+
+def _arm_moe(policy):
+    from rl4co.models.nn.moe import MoE
+
+    def pre(mod, args):
+        if mod.k < mod.num_experts and not (mod.noisy_gating and mod.training):
+            x = args[0].detach()
+            lg = (x.reshape(-1, mod.input_size) @ mod.w_gate).float()
+            if lg.numel():
+                top = lg.topk(mod.k + 1, dim=-1).values
+                MOE_MARGIN["min"] = min(MOE_MARGIN["min"], float((top[:, mod.k - 1] - top[:, mod.k]).min()))
+
+    for m in policy.modules():
+        if isinstance(m, MoE):
+            with torch.no_grad():
+                m.w_gate.normal_(0.0, 0.5)
+            m.register_forward_pre_hook(pre)
+
+
+def moe_watch(ctx):
+    """Start watching the gate margins for the current case (see above)."""
+    MOE_MARGIN["min"] = float("inf")
+    ctx.dontcare_probe = lambda sig: ("moe_expert_choice_within_rounding" if MOE_MARGIN["min"] < MOE_THR else None)
+
+
 def has_batchnorm(policy):
     return any(isinstance(m, nn.modules.batchnorm._BatchNorm) for m in policy.modules())
 
@@ -688,6 +723,7 @@ def build_policy(policy_key, env_name, env=None, seed=0, spread=1.5, embed_dim=3
     try:
         torch.manual_seed(int(seed))
         p = _construct(policy_key, env_name, embed_dim, norm, env, opts)
+        _arm_moe(p)
         with torch.no_grad():
             for name, prm in p.named_parameters():
                 if prm.requires_grad and prm.dim() >= 2:
